@@ -30,11 +30,65 @@ struct Acc {
     viols: BTreeMap<String, (String, Vec<String>, u64)>,
     samples: Vec<Vec<String>>,
 }
+// Which observations belong to which property.  The sweeps drive long histories whose checkpoints can observe many
+// things (answers, handles, structure, slot accounting, capacities); a check that decides property P must report only
+// what P states, otherwise a change that breaks another property would raise P's alarm.  A panic / abort / hang of an
+// in-contract operation is a failure of whatever was being exercised and is always reported.
+thread_local! {
+    static SCOPE: std::cell::Cell<(&'static str, bool)> = const { std::cell::Cell::new(("ALL", false)) };
+}
+fn scope_begin(prop: &'static str) {
+    SCOPE.with(|s| s.set((prop, false)));
+}
+/// from here on the history has called clear() at least once (C12 speaks about what happens afterwards)
+fn scope_after_clear() {
+    SCOPE.with(|s| s.set((s.get().0, true)));
+}
+fn on(tag: &str) -> bool {
+    let (prop, after_clear) = SCOPE.with(|s| s.get());
+    relevant(prop, tag, after_clear)
+}
+fn relevant(prop: &str, tag: &str, after_clear: bool) -> bool {
+    if prop.starts_with("ALL") || tag == "panic" || tag == "spine-setup" {
+        return true;
+    }
+    let inner = tag.rsplit(':').next().unwrap_or(tag);
+    let has = |set: &[&str]| set.contains(&inner);
+    match prop {
+        "C01" => has(&["first_less", "first_less_or_equal", "first_less_or_equal_by"]),
+        "C06" => has(&["get_value"]),
+        "C07" => has(&["export", "export-content"]),
+        "C13" => has(&["get_value", "first_less", "first_less_or_equal", "first_less_or_equal_by", "export", "export-content"]),
+        "C19" => has(&["export-capacity"]),
+        "C02" => has(&["structure"]),
+        "C11" => has(&["arena", "growth"]),
+        "C08" => has(&["handle"]) || tag.starts_with("handle-delete:"),
+        "C09" => has(&["index_after", "index_before"]),
+        "C04" | "C05" => has(&["get_value", "is_empty"]),
+        "C17" => has(&["handle-stability"]),
+        "C12" => after_clear && has(&["clear", "is_empty", "get_value", "handle", "first_less", "first_less_or_equal", "first_less_or_equal_by", "query", "query-partial", "structure", "arena", "index_after", "index_before", "export", "export-content"]),
+        "C03" => has(&["query", "query-partial", "chained", "sequential", "spurious", "duplicate", "missing", "bucket-edge", "whole-domain", "refused"]),
+        "C14" => has(&["refused", "degenerate", "storage", "bucket", "monotone", "bucket-edge", "whole-domain"]),
+        "C15" => has(&["placement", "chained-placement", "missing", "spurious", "duplicate", "chained", "sequential"]),
+        "C16" => has(&["stale", "purge", "lost-copy"]),
+        "C10" | "C18" | "C20" => false,
+        _ => true,
+    }
+}
+
 impl Acc {
     fn new(prop: &'static str, sys: &str) -> Self {
         Acc { prop, sys: sys.to_string(), states: HashSet::new(), transitions: 0, evals: 0, nontrivial: 0, counters: BTreeMap::new(), viols: BTreeMap::new(), samples: vec![] }
     }
+    /// Records the violation if the observation belongs to the property being decided; returns whether it did.
     fn viol(&mut self, kind: &str, tag: &str, msg: String, case: Vec<String>) {
+        self.viol_b(kind, tag, msg, case);
+    }
+    fn viol_b(&mut self, kind: &str, tag: &str, msg: String, case: Vec<String>) -> bool {
+        if !on(tag) {
+            self.count("observations_outside_this_property", 1);
+            return false;
+        }
         let sig = format!("{}/{}/{}", self.sys, kind, tag);
         match self.viols.get_mut(&sig) {
             Some(v) => v.2 += 1,
@@ -42,6 +96,7 @@ impl Acc {
                 self.viols.insert(sig, (msg, case, 1));
             }
         }
+        true
     }
     fn count(&mut self, k: &str, n: u64) {
         *self.counters.entry(k.to_string()).or_insert(0) += n;
@@ -166,6 +221,7 @@ fn parallel<F: Fn(usize, &mut Acc) + Sync>(n_items: usize, threads: usize, prop:
                     if i >= n_items {
                         break;
                     }
+                    scope_begin(prop);
                     // a panic of the subject inside a case (debug assertion, overflow, bounds check) is a
                     // violation with the case in flight as replay, not a crash of the harness
                     if guard(|| f(i, &mut acc)).is_err() {
@@ -566,8 +622,9 @@ where
     let nlists = t.verif_chunks().len() as u32;
     acc.states.insert(fingerprint(format!("{}:{lo}:{len}", R::NAME).as_bytes()));
     if nb > 32 || nlists < 31 + nb || nlists > 63 {
-        acc.viol("new", "storage", format!("{nlists} bucket lists allocated; last reachable leaf place is {} (bucket of hi = {}), every reachable place must be backed by storage", 31 + nb - 1, nb - 1), case0.clone());
-        return;
+        if acc.viol_b("new", "storage", format!("{nlists} bucket lists allocated; last reachable leaf place is {} (bucket of hi = {}), every reachable place must be backed by storage", 31 + nb - 1, nb - 1), case0.clone()) {
+            return;
+        }
     }
     // coordinates to probe
     let w: i128 = 1i128 << s;
@@ -617,15 +674,17 @@ where
                     None => !place_of.contains(&Some(at[0])),
                 };
                 if !consistent {
-                    acc.viol("insert", "bucket", format!("coordinate {x} of domain [{lo},{hi}] (bucket {want} for width 2^{s}) was stored at places {at:?}; bucket -> place so far {:?}: coordinates of one bucket must share one place and different buckets must not", place_of.iter().flatten().collect::<Vec<_>>()), vec![case0[0].clone(), format!("insert([{x},{x}])")]);
-                    return;
+                    if acc.viol_b("insert", "bucket", format!("coordinate {x} of domain [{lo},{hi}] (bucket {want} for width 2^{s}) was stored at places {at:?}; bucket -> place so far {:?}: coordinates of one bucket must share one place and different buckets must not", place_of.iter().flatten().collect::<Vec<_>>()), vec![case0[0].clone(), format!("insert([{x},{x}])")]) {
+                        return;
+                    }
                 }
                 if want < 32 {
                     place_of[want as usize] = Some(at[0]);
                 }
                 if want < prev_bucket || want >= 32 {
-                    acc.viol("insert", "monotone", format!("bucket mapping not monotone / out of range at {x}"), vec![case0[0].clone()]);
-                    return;
+                    if acc.viol_b("insert", "monotone", format!("bucket mapping not monotone / out of range at {x}"), vec![case0[0].clone()]) {
+                        return;
+                    }
                 }
                 prev_bucket = want;
             }
@@ -920,6 +979,11 @@ fn export_histories(acc: &mut Acc, grow: u32) {
         cases.push((format!("{g} inserts, clear, then {} inserts", 2 * g + 10), 8, g, true, 2 * g + 10, 10));
         cases.push((format!("hint {} then {} inserts", g + 1, 2 * g + 3), g as usize + 1, 0, false, 2 * g + 3, 10));
     }
+    // the same grow-then-expire histories with capacity hints that are not a power of two / a multiple of 8
+    for hint in [0usize, 1, 9, 12, 100, 1001] {
+        cases.push((format!("hint={hint}: 2000 inserts expiring at 10, then 5 inserts at time 10"), hint, 2000, false, 5, 10));
+        cases.push((format!("hint={hint}: 700 inserts, clear, then 3 inserts"), hint, 700, true, 3, 10));
+    }
     for (k, (label, hint, g, clr, n2, tq)) in cases.iter().enumerate() {
         for subject in 0..2u32 {
             rt::hist_reset();
@@ -1178,77 +1242,94 @@ fn big_checkpoint<S: BigSub>(t: &S, model: &BTreeMap<u32, u32>, hint: usize, pea
     if let Some(c) = cur.first() {
         rt::hist_push(*c);
     }
-    if t.empty() != model.is_empty() {
+    let (g_empty, g_get, g_handle, g_after, g_before) = (on("is_empty"), on("get_value"), on("handle"), on("index_after"), on("index_before"));
+    if g_empty && t.empty() != model.is_empty() {
         return Err(("is_empty".into(), format!("{what}: is_empty() = {} with {} keys stored", t.empty(), model.len())));
     }
-    for (k, v) in model {
-        if t.get(*k) != Some(*v) {
-            return Err(("get_value".into(), format!("{what}: get_value({k}) = {:?}, reference says Some({v})", t.get(*k))));
-        }
-        let h = t.fil(*k);
-        if h == i_tree::EMPTY_REF || t.at(h) != *v {
-            return Err(("handle".into(), format!("{what}: first_index_less({k}) = {h} does not designate the entry of key {k}")));
-        }
-        let h2 = t.filby(*k);
-        if h2 != h {
-            return Err(("handle".into(), format!("{what}: first_index_less_by(cmp with {k}) = {h2}, first_index_less({k}) = {h}")));
-        }
-    }
-    // absent keys right next to stored ones
-    for (k, v) in model.iter().step_by(37) {
-        if !model.contains_key(&(k + 1)) {
-            if t.get(k + 1).is_some() {
-                return Err(("get_value".into(), format!("{what}: get_value({}) of an absent key returned a value", k + 1)));
+    if g_get || g_handle {
+        for (k, v) in model {
+            if g_get && t.get(*k) != Some(*v) {
+                return Err(("get_value".into(), format!("{what}: get_value({k}) = {:?}, reference says Some({v})", t.get(*k))));
             }
-            // a probe in the gap above a stored key designates that key's entry, in both forms
-            let h = t.fil(k + 1);
-            if h == i_tree::EMPTY_REF || t.at(h) != *v || t.filby(k + 1) != h {
-                return Err(("handle".into(), format!("{what}: first_index_less({}) = {h}, first_index_less_by = {}; the entry of key {k} is the one to designate", k + 1, t.filby(k + 1))));
+            if g_handle {
+                let h = t.fil(*k);
+                if h == i_tree::EMPTY_REF || t.at(h) != *v {
+                    return Err(("handle".into(), format!("{what}: first_index_less({k}) = {h} does not designate the entry of key {k}")));
+                }
+                let h2 = t.filby(*k);
+                if h2 != h {
+                    return Err(("handle".into(), format!("{what}: first_index_less_by(cmp with {k}) = {h2}, first_index_less({k}) = {h}")));
+                }
+            }
+        }
+        // absent keys right next to stored ones
+        for (k, v) in model.iter().step_by(37) {
+            if !model.contains_key(&(k + 1)) {
+                if g_get && t.get(k + 1).is_some() {
+                    return Err(("get_value".into(), format!("{what}: get_value({}) of an absent key returned a value", k + 1)));
+                }
+                if g_handle {
+                    // a probe in the gap above a stored key designates that key's entry, in both forms
+                    let h = t.fil(k + 1);
+                    if h == i_tree::EMPTY_REF || t.at(h) != *v || t.filby(k + 1) != h {
+                        return Err(("handle".into(), format!("{what}: first_index_less({}) = {h}, first_index_less_by = {}; the entry of key {k} is the one to designate", k + 1, t.filby(k + 1))));
+                    }
+                }
             }
         }
     }
     // neighbour steps: walking from the smallest key visits every key in order and ends with EMPTY_REF, and back
-    if let (Some((&lo, _)), Some((&hi, _))) = (model.first_key_value(), model.last_key_value()) {
+    if let (Some((&lo, _)), Some((&hi, _)), true) = (model.first_key_value(), model.last_key_value(), g_after || g_before) {
         if t.after(t.fil(lo)).is_some() {
-            let mut h = t.fil(lo);
-            for (k, v) in model {
-                if h == i_tree::EMPTY_REF || t.at(h) != *v {
-                    return Err(("index_after".into(), format!("{what}: the walk by index_after from the smallest key does not arrive at key {k}")));
+            if g_after {
+                let mut h = t.fil(lo);
+                for (k, v) in model {
+                    if h == i_tree::EMPTY_REF || t.at(h) != *v {
+                        return Err(("index_after".into(), format!("{what}: the walk by index_after from the smallest key does not arrive at key {k}")));
+                    }
+                    h = t.after(h).unwrap();
                 }
-                h = t.after(h).unwrap();
-            }
-            if h != i_tree::EMPTY_REF {
-                return Err(("index_after".into(), format!("{what}: index_after(handle of the largest key {hi}) = {h}, not EMPTY_REF")));
-            }
-            let mut h = t.fil(hi);
-            for (k, v) in model.iter().rev() {
-                if h == i_tree::EMPTY_REF || t.at(h) != *v {
-                    return Err(("index_before".into(), format!("{what}: the walk by index_before from the largest key does not arrive at key {k}")));
+                if h != i_tree::EMPTY_REF {
+                    return Err(("index_after".into(), format!("{what}: index_after(handle of the largest key {hi}) = {h}, not EMPTY_REF")));
                 }
-                h = t.before(h).unwrap();
             }
-            if h != i_tree::EMPTY_REF {
-                return Err(("index_before".into(), format!("{what}: index_before(handle of the smallest key {lo}) = {h}, not EMPTY_REF")));
+            if g_before {
+                let mut h = t.fil(hi);
+                for (k, v) in model.iter().rev() {
+                    if h == i_tree::EMPTY_REF || t.at(h) != *v {
+                        return Err(("index_before".into(), format!("{what}: the walk by index_before from the largest key does not arrive at key {k}")));
+                    }
+                    h = t.before(h).unwrap();
+                }
+                if h != i_tree::EMPTY_REF {
+                    return Err(("index_before".into(), format!("{what}: index_before(handle of the smallest key {lo}) = {h}, not EMPTY_REF")));
+                }
             }
         }
     }
-    let s = t.snap();
-    let a = crate::inv::analyze(&s, |p| p.0);
-    if let Some(e) = a.rb_errors.first() {
-        return Err(("structure".into(), format!("{what}: {e}")));
-    }
-    if a.inorder.len() != model.len() {
-        return Err(("structure".into(), format!("{what}: {} entries linked, {} stored", a.inorder.len(), model.len())));
-    }
-    if let Some(e) = a.arena_errors.first() {
-        return Err(("arena".into(), format!("{what}: {e}")));
-    }
-    if a.inorder.len() + s.unused.len() + 1 != s.slots.len() {
-        return Err(("arena".into(), format!("{what}: {} linked + {} free + sentinel != {} slots", a.inorder.len(), s.unused.len(), s.slots.len())));
-    }
-    let bound = 8 * (peak + 1) + hint.max(8);
-    if s.slots.len() > bound {
-        return Err(("growth".into(), format!("{what}: buffer holds {} slots for a peak population of {peak} (bound {bound})", s.slots.len())));
+    if on("structure") || on("arena") || on("growth") {
+        let s = t.snap();
+        let a = crate::inv::analyze(&s, |p| p.0);
+        if on("structure") {
+            if let Some(e) = a.rb_errors.first() {
+                return Err(("structure".into(), format!("{what}: {e}")));
+            }
+            if a.inorder.len() != model.len() {
+                return Err(("structure".into(), format!("{what}: {} entries linked, {} stored", a.inorder.len(), model.len())));
+            }
+        }
+        if on("arena") {
+            if let Some(e) = a.arena_errors.first() {
+                return Err(("arena".into(), format!("{what}: {e}")));
+            }
+            if a.inorder.len() + s.unused.len() + 1 != s.slots.len() {
+                return Err(("arena".into(), format!("{what}: {} linked + {} free + sentinel != {} slots", a.inorder.len(), s.unused.len(), s.slots.len())));
+            }
+        }
+        let bound = 8 * (peak + 1) + hint.max(8);
+        if on("growth") && s.slots.len() > bound {
+            return Err(("growth".into(), format!("{what}: buffer holds {} slots for a peak population of {peak} (bound {bound})", s.slots.len())));
+        }
     }
     Ok(())
 }
@@ -1267,15 +1348,41 @@ fn big_history<S: BigSub>(hint: usize, n: u32, order: u32, keep_pct: u32, acc: &
     let r = guard(|| -> Result<(), (String, String)> {
         let mut t = S::new(hint);
         let val = |k: u32| k.wrapping_mul(7) + 3;
+        // handles taken at one checkpoint must still designate their entries at the next one: only insertions
+        // happen in between (C17)
+        let mut held: Vec<(u32, u32, u32)> = vec![];
+        let hold = |t: &S, model: &BTreeMap<u32, u32>, held: &mut Vec<(u32, u32, u32)>, what: &str| -> Result<(), (String, String)> {
+            if !on("handle-stability") {
+                return Ok(());
+            }
+            for &(k, h, v) in held.iter() {
+                if t.at(h) != v || t.fil(k) != h {
+                    return Err(("handle-stability".into(), format!("{what}: handle {h} taken for key {k} before the last batch of insertions now reads {} (was {v}); first_index_less({k}) = {}", t.at(h), t.fil(k))));
+                }
+            }
+            held.clear();
+            for (k, v) in model.iter().step_by((model.len() / 512).max(1)) {
+                let h = t.fil(*k);
+                if h != i_tree::EMPTY_REF {
+                    held.push((*k, h, *v));
+                }
+            }
+            Ok(())
+        };
         for (j, k) in big_perm(n, order).into_iter().enumerate() {
             t.ins(k * 2, val(k * 2));
             model.insert(k * 2, val(k * 2));
             peak = peak.max(model.len());
             if j % (n as usize / 12).max(997) == 996 {
                 big_checkpoint(&t, &model, hint, peak, "while filling")?;
+                hold(&t, &model, &mut held, "while filling")?;
+            } else if j % 61 == 7 && n <= 70000 {
+                hold(&t, &model, &mut held, "while filling")?;
             }
         }
         big_checkpoint(&t, &model, hint, peak, "after the fill")?;
+        hold(&t, &model, &mut held, "after the fill")?;
+        held.clear();
         let keep = if keep_pct == 0 { 0 } else { ((n as u64 * keep_pct as u64 / 100) as usize).max(1) };
         for k in big_perm(n, 2 - order.min(2)) {
             if model.len() <= keep {
@@ -1286,6 +1393,7 @@ fn big_history<S: BigSub>(hint: usize, n: u32, order: u32, keep_pct: u32, acc: &
         }
         big_checkpoint(&t, &model, hint, peak, "after thinning out")?;
         t.clr();
+        scope_after_clear();
         model.clear();
         big_checkpoint(&t, &model, hint, peak, "after clear")?;
         for (j, k) in big_perm(2 * n, (order + 1) % 3).into_iter().enumerate() {
@@ -1294,9 +1402,13 @@ fn big_history<S: BigSub>(hint: usize, n: u32, order: u32, keep_pct: u32, acc: &
             peak = peak.max(model.len());
             if j as u32 % (n / 2).max(1) == 0 {
                 big_checkpoint(&t, &model, hint, peak, "while refilling after clear")?;
+                hold(&t, &model, &mut held, "while refilling after clear")?;
+            } else if j % 61 == 7 && n <= 70000 {
+                hold(&t, &model, &mut held, "while refilling after clear")?;
             }
         }
         big_checkpoint(&t, &model, hint, peak, "after the refill")?;
+        hold(&t, &model, &mut held, "after the refill")?;
         for (j, k) in big_perm(2 * n, 2).into_iter().enumerate() {
             t.del(k);
             model.remove(&k);
@@ -1337,6 +1449,7 @@ fn big_spine_history<S: BigSub>(n1: u32, n2: u32, mirror: bool, acc: &mut Acc, c
     rt::hist_reset();
     rt::hist_push(code(6, case_no, 1, 0, 0));
     let mut model: BTreeMap<u32, u32> = BTreeMap::new();
+    let acc_prop = acc.prop;
     let r = guard(|| -> Result<(), (String, String)> {
         let mut t = S::new(8);
         let val = |k: u32| k.wrapping_mul(7) + 3;
@@ -1379,6 +1492,9 @@ fn big_spine_history<S: BigSub>(n1: u32, n2: u32, mirror: bool, acc: &mut Acc, c
         big_checkpoint(&t, &model, 8, peak, "after the two fills")?;
         // gaps: a probe between two stored keys designates the smaller one, in both forms
         for k in [r0 + 1, r0.saturating_sub(1), r0 + n2 + 2, r0.saturating_sub(n2 + 2), 0, u32::MAX] {
+            if !on("handle") {
+                break;
+            }
             if let Some((pk, pv)) = model.range(..=k).next_back() {
                 let h = t.fil(k);
                 if h == i_tree::EMPTY_REF || t.at(h) != *pv || t.filby(k) != h {
@@ -1392,7 +1508,11 @@ fn big_spine_history<S: BigSub>(n1: u32, n2: u32, mirror: bool, acc: &mut Acc, c
             t.delh(h);
             model.remove(&rk);
             if round == 0 || round == 63 {
-                big_checkpoint(&t, &model, 8, peak, "after removing the root through its handle")?;
+                // whatever is wrong now was caused by a removal through a handle
+                SCOPE.with(|s| if s.get().0 == "C08" { s.set(("ALL", false)) });
+                let r = big_checkpoint(&t, &model, 8, peak, "after removing the root through its handle");
+                SCOPE.with(|s| if s.get().0 == "ALL" && acc_prop == "C08" { s.set(("C08", false)) });
+                r.map_err(|(tag, msg)| (format!("handle-delete:{tag}"), msg))?;
             }
         }
         Ok(())
@@ -1521,17 +1641,25 @@ fn bigk_history(hint: usize, n: u32, order: u32, pat: u32, list: bool, acc: &mut
                 let sn = t.verif_snapshot();
                 let a = crate::inv::analyze(&sn, |p| p.0.id);
                 if let Some(e) = a.rb_errors.first() {
-                    return Err(("structure".into(), format!("{what}: {e}")));
+                    if on("structure") {
+                        return Err(("structure".into(), format!("{what}: {e}")));
+                    }
                 }
                 if let Some(e) = a.arena_errors.first() {
-                    return Err(("arena".into(), format!("{what}: {e}")));
+                    if on("arena") {
+                        return Err(("arena".into(), format!("{what}: {e}")));
+                    }
                 }
                 if a.inorder.len() + sn.unused.len() + 1 != sn.slots.len() {
-                    return Err(("arena".into(), format!("{what}: {} linked + {} free + sentinel != {} slots", a.inorder.len(), sn.unused.len(), sn.slots.len())));
+                    if on("arena") {
+                        return Err(("arena".into(), format!("{what}: {} linked + {} free + sentinel != {} slots", a.inorder.len(), sn.unused.len(), sn.slots.len())));
+                    }
                 }
                 let bound = 8 * (peak + 1) + hint.max(8);
                 if sn.slots.len() > bound {
-                    return Err(("growth".into(), format!("{what}: buffer holds {} slots for a peak population of {peak} (bound {bound})", sn.slots.len())));
+                    if on("growth") {
+                        return Err(("growth".into(), format!("{what}: buffer holds {} slots for a peak population of {peak} (bound {bound})", sn.slots.len())));
+                    }
                 }
             }
             Ok(())
@@ -1585,7 +1713,9 @@ fn bigk_history(hint: usize, n: u32, order: u32, pat: u32, list: bool, acc: &mut
                 _ => None,
             };
             if got != want {
-                return Err(("get_value".into(), format!("get_value(time {t}, key {id}) = {got:?}, reference says {want:?}")));
+                if on("get_value") {
+                    return Err(("get_value".into(), format!("get_value(time {t}, key {id}) = {got:?}, reference says {want:?}")));
+                }
             }
             let pred = model.range(..=id).rev().find(|(_, (e, _))| *e > t).map(|(_, (_, v))| *v).unwrap_or(0);
             let gotp = match (tree.as_mut(), lst.as_mut()) {
@@ -1594,7 +1724,9 @@ fn bigk_history(hint: usize, n: u32, order: u32, pat: u32, list: bool, acc: &mut
                 _ => 0,
             };
             if gotp != pred {
-                return Err(("first_less_or_equal".into(), format!("first_less_or_equal(time {t}, probe {id}) = {gotp}, reference says {pred}")));
+                if on("first_less_or_equal") {
+                    return Err(("first_less_or_equal".into(), format!("first_less_or_equal(time {t}, probe {id}) = {gotp}, reference says {pred}")));
+                }
             }
             if id % 4096 == 0 {
                 beat();
@@ -1609,10 +1741,14 @@ fn bigk_history(hint: usize, n: u32, order: u32, pat: u32, list: bool, acc: &mut
             _ => vec![],
         };
         if got != want {
-            return Err(("export".into(), format!("into_ordered_vec(5) returned {} values, reference says {}", got.len(), want.len())));
+            if on("export") {
+                return Err(("export".into(), format!("into_ordered_vec(5) returned {} values, reference says {}", got.len(), want.len())));
+            }
         }
         if got.capacity() > 8 * stored + 64 {
-            return Err(("export-capacity".into(), format!("into_ordered_vec returned capacity {} for {stored} stored entries", got.capacity())));
+            if on("export-capacity") {
+                return Err(("export-capacity".into(), format!("into_ordered_vec returned capacity {} for {stored} stored entries", got.capacity())));
+            }
         }
         Ok(())
     });
@@ -1707,17 +1843,25 @@ fn bigk_full_history(hint: usize, target: usize, order: u32, deadpat: u32, pos: 
                 let sn = tr.verif_snapshot();
                 let a = crate::inv::analyze(&sn, |p| p.0.id);
                 if let Some(e) = a.rb_errors.first() {
-                    return Err(("structure".into(), format!("{what}: {e}")));
+                    if on("structure") {
+                        return Err(("structure".into(), format!("{what}: {e}")));
+                    }
                 }
                 if let Some(e) = a.arena_errors.first() {
-                    return Err(("arena".into(), format!("{what}: {e}")));
+                    if on("arena") {
+                        return Err(("arena".into(), format!("{what}: {e}")));
+                    }
                 }
                 if a.inorder.len() + sn.unused.len() + 1 != sn.slots.len() {
-                    return Err(("arena".into(), format!("{what}: {} linked + {} free + sentinel != {} slots", a.inorder.len(), sn.unused.len(), sn.slots.len())));
+                    if on("arena") {
+                        return Err(("arena".into(), format!("{what}: {} linked + {} free + sentinel != {} slots", a.inorder.len(), sn.unused.len(), sn.slots.len())));
+                    }
                 }
                 let bound = 8 * (count as usize + 2) + hint.max(8);
                 if sn.slots.len() > bound {
-                    return Err(("growth".into(), format!("{what}: buffer holds {} slots for a peak population of {} (bound {bound})", sn.slots.len(), count + 1)));
+                    if on("growth") {
+                        return Err(("growth".into(), format!("{what}: buffer holds {} slots for a peak population of {} (bound {bound})", sn.slots.len(), count + 1)));
+                    }
                 }
             }
             Ok(())
@@ -1737,7 +1881,9 @@ fn bigk_full_history(hint: usize, target: usize, order: u32, deadpat: u32, pos: 
                 _ => None,
             };
             if got != want {
-                return Err(("get_value".into(), format!("get_value(time {t}, key {id}) = {got:?}, reference says {want:?}")));
+                if on("get_value") {
+                    return Err(("get_value".into(), format!("get_value(time {t}, key {id}) = {got:?}, reference says {want:?}")));
+                }
             }
             let pred = model.range(..=id).rev().find(|(_, (e, _))| *e > t).map(|(_, (_, v))| *v).unwrap_or(0);
             let gotp = match (tree.as_mut(), lst.as_mut()) {
@@ -1746,7 +1892,9 @@ fn bigk_full_history(hint: usize, target: usize, order: u32, deadpat: u32, pos: 
                 _ => 0,
             };
             if gotp != pred {
-                return Err(("first_less_or_equal".into(), format!("first_less_or_equal(time {t}, probe {id}) = {gotp}, reference says {pred}")));
+                if on("first_less_or_equal") {
+                    return Err(("first_less_or_equal".into(), format!("first_less_or_equal(time {t}, probe {id}) = {gotp}, reference says {pred}")));
+                }
             }
         }
         structure(&tree, "after the lookups")?;
@@ -1757,7 +1905,9 @@ fn bigk_full_history(hint: usize, target: usize, order: u32, deadpat: u32, pos: 
             _ => vec![],
         };
         if got != want {
-            return Err(("export".into(), format!("into_ordered_vec({t}) returned {} values, reference says {}", got.len(), want.len())));
+            if on("export") {
+                return Err(("export".into(), format!("into_ordered_vec({t}) returned {} values, reference says {}", got.len(), want.len())));
+            }
         }
         Ok(())
     });
@@ -1906,7 +2056,7 @@ where
     let bk = |r: (i64, i64)| (ref_bucket(lo, s, r.0), ref_bucket(lo, s, r.1));
     let r = guard(|| -> Result<(), (String, String)> {
         let Some(mut tree) = SegExpTree::<R, u32, LV>::new(SegRange { min: R::from_i64(lo), max: R::from_i64(hi) }) else {
-            return Err(("refused".into(), "the constructor refused the domain".into()));
+            return if on("refused") { Err(("refused".into(), "the constructor refused the domain".into())) } else { Ok(()) };
         };
         let mut model: Vec<(u32, u32, u32, u32)> = vec![]; // id, exp, first bucket, last bucket
         for i in 0..nq {
@@ -1933,26 +2083,35 @@ where
                 if got != want {
                     let missing: Vec<u32> = want.iter().filter(|x| !got.contains(x)).take(4).copied().collect();
                     let extra: Vec<u32> = got.iter().filter(|x| !want.contains(x)).take(4).copied().collect();
-                    return Err(("query".into(), format!("round {i} (query #{} of this instance): query [{},{}] at time {t} returned {} values, reference says {}; missing ids {missing:?}, unexpected ids {extra:?}", i + 1, qr.0, qr.1, got.len(), want.len())));
+                    if on("query") {
+                        return Err(("query".into(), format!("round {i} (query #{} of this instance): query [{},{}] at time {t} returned {} values, reference says {}; missing ids {missing:?}, unexpected ids {extra:?}", i + 1, qr.0, qr.1, got.len(), want.len())));
+                    }
                 }
             } else {
                 let dup = got.windows(2).any(|w| w[0] == w[1]);
                 if dup || got.iter().any(|x| !want.contains(x)) || got.len() != want.len().min(2) {
-                    return Err(("query-partial".into(), format!("round {i}: the first two results of query [{},{}] at time {t} are {got:?}; reference set has {} values", qr.0, qr.1, want.len())));
+                    if on("query-partial") {
+                        return Err(("query-partial".into(), format!("round {i}: the first two results of query [{},{}] at time {t} are {got:?}; reference set has {} values", qr.0, qr.1, want.len())));
+                    }
                 }
             }
             if all && qi == 0 && i % 16 < 9 {
                 // after a fully consumed whole-domain query only copies of unexpired values are stored
                 let stale = tree.verif_chunks().iter().flatten().filter(|(v, _)| v.exp < t).count();
                 if stale > 0 {
-                    return Err(("stale".into(), format!("round {i}: {stale} copies of values with expiration below {t} are still stored after a whole-domain query at time {t}")));
+                    if on("stale") {
+                        return Err(("stale".into(), format!("round {i}: {stale} copies of values with expiration below {t} are still stored after a whole-domain query at time {t}")));
+                    }
                 }
             }
             if clear_every > 0 && i % clear_every == clear_every - 1 {
                 SegExpCollection::clear(&mut tree);
+                scope_after_clear();
                 model.clear();
                 if tree.verif_chunks().iter().any(|c| !c.is_empty()) {
-                    return Err(("clear".into(), format!("round {i}: clear left stored copies behind")));
+                    if on("clear") {
+                        return Err(("clear".into(), format!("round {i}: clear left stored copies behind")));
+                    }
                 }
             }
             if i % 2048 == 0 {
@@ -2054,17 +2213,25 @@ fn longrun_k(list: bool, hint: usize, nkeys: u32, period: u32, clear_every: u32,
                     let sn = tr.verif_snapshot();
                     let a = crate::inv::analyze(&sn, |p| p.0.id);
                     if let Some(e) = a.rb_errors.first() {
-                        return Err(("structure".into(), format!("round {i}: {e}")));
+                        if on("structure") {
+                            return Err(("structure".into(), format!("round {i}: {e}")));
+                        }
                     }
                     if let Some(e) = a.arena_errors.first() {
-                        return Err(("arena".into(), format!("round {i}: {e}")));
+                        if on("arena") {
+                            return Err(("arena".into(), format!("round {i}: {e}")));
+                        }
                     }
                     if a.inorder.len() + sn.unused.len() + 1 != sn.slots.len() {
-                        return Err(("arena".into(), format!("round {i}: {} linked + {} free + sentinel != {} slots", a.inorder.len(), sn.unused.len(), sn.slots.len())));
+                        if on("arena") {
+                            return Err(("arena".into(), format!("round {i}: {} linked + {} free + sentinel != {} slots", a.inorder.len(), sn.unused.len(), sn.slots.len())));
+                        }
                     }
                     let bound = 8 * (nkeys as usize + 1) + hint.max(8);
                     if sn.slots.len() > bound {
-                        return Err(("growth".into(), format!("round {i}: buffer holds {} slots; at most {nkeys} entries were ever stored at once (bound {bound})", sn.slots.len())));
+                        if on("growth") {
+                            return Err(("growth".into(), format!("round {i}: buffer holds {} slots; at most {nkeys} entries were ever stored at once (bound {bound})", sn.slots.len())));
+                        }
                     }
                 }
             }
@@ -2075,6 +2242,7 @@ fn longrun_k(list: bool, hint: usize, nkeys: u32, period: u32, clear_every: u32,
                 if let Some(l) = lst.as_mut() {
                     KC::clear(l);
                 }
+                scope_after_clear();
                 model.clear();
             }
         }
@@ -2088,10 +2256,14 @@ fn longrun_k(list: bool, hint: usize, nkeys: u32, period: u32, clear_every: u32,
             _ => vec![],
         };
         if got != want {
-            return Err(("export".into(), format!("into_ordered_vec({t}) after {nq} rounds returned {} values, reference says {}", got.len(), want.len())));
+            if on("export") {
+                return Err(("export".into(), format!("into_ordered_vec({t}) after {nq} rounds returned {} values, reference says {}", got.len(), want.len())));
+            }
         }
         if got.capacity() > 8 * stored + 64 {
-            return Err(("export-capacity".into(), format!("into_ordered_vec returned capacity {} for {stored} stored entries", got.capacity())));
+            if on("export-capacity") {
+                return Err(("export-capacity".into(), format!("into_ordered_vec returned capacity {} for {stored} stored entries", got.capacity())));
+            }
         }
         Ok(())
     });
